@@ -8,6 +8,9 @@ ROOT = os.path.dirname(os.path.dirname(os.path.abspath(__file__)))
 checks = json.load(open(os.path.join(ROOT, "checks.json")))
 meta = json.load(open(os.path.join(ROOT, "tools", "manifest_meta.json")))
 props = [json.loads(l) for l in open(os.path.join(ROOT, "properties.jsonl"))]
+# only properties the orchestrator has pinned itself are claimed (one id per line)
+claimed = set(l.strip() for l in open(os.path.join(ROOT, "claimed.txt")) if l.strip() and not l.startswith("#"))
+checks = {k: v for k, v in checks.items() if k in claimed}
 
 try:
     hooks = subprocess.run(["git", "-C", "/repo", "log", "--format=%H %s"], capture_output=True, text=True).stdout.splitlines()
